@@ -1,1 +1,70 @@
-fn main() { println!("pdfsim skeleton"); }
+mod digest;
+mod docgen;
+mod families;
+mod ops;
+mod rng;
+mod sched;
+mod seams;
+
+use rng::Rng;
+
+fn selftest_docs(n: u64) -> i32 {
+    let mut bad = 0;
+    for seed in 0..n {
+        for fam in [families::Family::Rich, families::Family::TwoLeaf, families::Family::CyclicParents] {
+            let mut rng = Rng::new(rng::run_seed(1, fam.name(), seed));
+            let spec = families::generate(&fam, &mut rng);
+            let w = docgen::write_doc(&spec);
+            if let Err(e) = docgen::self_check(&spec, &w) {
+                println!("SELF-CHECK FAIL {} seed {}: {}", fam.name(), seed, e);
+                bad += 1;
+                continue;
+            }
+            let j = spec.to_json();
+            let back = docgen::DocSpec::from_json(&j);
+            if back.as_ref() != Some(&spec) {
+                println!("JSON ROUNDTRIP FAIL {} seed {}", fam.name(), seed);
+                bad += 1;
+            }
+            let inv = ops::inventory(&w.bytes, b"");
+            if !inv.loadable {
+                let ctl = seams::SimCtl::new(false, false);
+                let e = ops::open(&w.bytes, &ctl, false, b"").err();
+                println!("LOAD FAIL {} seed {}: {:?}", fam.name(), seed, e);
+                std::fs::write(format!("/tmp/fail_{}_{}.pdf", fam.name(), seed), &w.bytes).ok();
+                bad += 1;
+                continue;
+            }
+            if seed < 2 {
+                println!("{} seed {}: {} bytes, size {}, pages {}", fam.name(), seed, w.bytes.len(), inv.size, inv.n_pages);
+                let ctl = seams::SimCtl::new(false, false);
+                let file = ops::open(&w.bytes, &ctl, false, b"").unwrap();
+                let res = file.resolver();
+                for (id, kind) in &inv.objects {
+                    for op in ops::right_ops(*id, *kind) {
+                        let a = ops::exec(&file, &res, false, &op);
+                        println!("   {:?} {:?} -> {}", kind, op, a.text);
+                    }
+                }
+                for p in 0..inv.n_pages {
+                    for op in [ops::Op::GetPage(p), ops::Op::PageWalk(p), ops::Op::LazyAnnots(p), ops::Op::LazyFont(p)] {
+                        let a = ops::exec(&file, &res, false, &op);
+                        println!("   {:?} -> {}", op, a.text);
+                    }
+                }
+            }
+        }
+    }
+    println!("selftest-docs: {} failures", bad);
+    if bad > 0 { 2 } else { 0 }
+}
+
+fn main() {
+    let args: Vec<String> = std::env::args().collect();
+    seams::install_hooks();
+    let code = match args.get(1).map(|s| s.as_str()) {
+        Some("selftest-docs") => selftest_docs(args.get(2).and_then(|s| s.parse().ok()).unwrap_or(50)),
+        _ => { eprintln!("usage"); 2 }
+    };
+    std::process::exit(code);
+}
